@@ -349,8 +349,8 @@ func runOne(em *hlib.Emitter, in input) {
 	}
 	obsTerm := hlib.App("Obs", hlib.Z(int64(t.Count)), hlib.F64(t.SampledCount), hlib.F64(t.PerSecond), hlib.F64(t.Mean), hlib.F64(t.Median),
 		hlib.F64(t.Min), hlib.F64(t.Max), hlib.F64(t.StdDev), hlib.F64(t.Sum), hlib.F64(t.SumSquares), hlib.List(vals), hlib.List(pl), histTerm)
-	c.Coq = hlib.App("Case", hlib.List(zs(in.Pcts)), maskTerm(in.Mask), hlib.ZU(uint64(in.Limit)), hlib.Z(in.Interval),
-		hlib.StrList([]string(t.Tags)), hlib.List(table), hlib.List(pts), hlib.Bool(in.Exact), obsTerm)
+	c.Coq = "(Single " + hlib.App("Case", hlib.List(zs(in.Pcts)), maskTerm(in.Mask), hlib.ZU(uint64(in.Limit)), hlib.Z(in.Interval),
+		hlib.StrList([]string(t.Tags)), hlib.List(table), hlib.List(pts), hlib.Bool(in.Exact), obsTerm) + ")"
 	c.Obs = map[string]interface{}{"count": t.Count, "sampled": jf(t.SampledCount), "per_second": jf(t.PerSecond), "mean": jf(t.Mean), "median": jf(t.Median),
 		"min": jf(t.Min), "max": jf(t.Max), "stddev": jf(t.StdDev), "sum": jf(t.Sum), "sum_squares": jf(t.SumSquares), "percentiles": pobs, "histogram": histObs,
 		"histogram_nil": t.Histogram == nil, "tags": t.Tags}
@@ -394,10 +394,27 @@ func main() {
 	case "gen":
 		r := hlib.NewRand(a.Seed)
 		for i := 0; i < a.N; i++ {
-			runOne(em, genCase(r.Fork(), i))
+			if i%4 == 3 { // stream `full`: lock-step history on the whole aggregator
+				runFull(em, genFull(r.Fork()))
+			} else {
+				runOne(em, genCase(r.Fork(), i))
+			}
 		}
 	case "run":
 		for _, raw := range a.Inputs {
+			var probe struct {
+				Full bool `json:"full"`
+			}
+			_ = json.Unmarshal(raw, &probe)
+			if probe.Full {
+				var fin fullInput
+				if err := json.Unmarshal(raw, &fin); err != nil {
+					fmt.Fprintln(os.Stderr, "bad input:", err)
+					os.Exit(2)
+				}
+				runFull(em, fin)
+				continue
+			}
 			var in input
 			if err := json.Unmarshal(raw, &in); err != nil {
 				fmt.Fprintln(os.Stderr, "bad input:", err)
